@@ -189,6 +189,7 @@ h("cont.H_OptionalFault", map[string]int{"rounds": 3, "order_schemes": 1}, map[s
 			h("cont.H_Registry", map[string]int{"L": 2, "order_schemes": 1}, map[string]int{"L": 3, "order_schemes": 1}, []string{"rejected_add", "rejected_second_identity", "rejected_unimplemented_interface", "remove", "remove_keyed", "snapshot"}, 30, "history of L operations {Add directly, Add through a module, Remove, RemoveKeyed, Build} over a pool of two concrete types, an auxiliary type and an interface, keys {nil,k1}, group g1, six registration forms incl. multi-output ones that collide on their second identity, plus registrations with two As options one of which names an interface the service does not implement (must be rejected whole); after every step Contains / ContainsKeyed / Count / ToSlice vs a reference registry; a final Build must use exactly the registry (resolvability per identity, group sizes, no constructor of a removed singleton runs); every provider built on the way is probed again after the later edits"),
 			h("cont.H_Registry", map[string]int{"L": 3, "prefix": 1, "order_schemes": 1}, map[string]int{"L": 4, "prefix": 1, "order_schemes": 1}, []string{"rejected_add", "rejected_second_identity", "rejected_unimplemented_interface", "remove", "remove_keyed", "snapshot"}, 0, "(histories starting with Add, Build; the remaining operations symbolic) history of L operations {Add directly, Add through a module, Remove, RemoveKeyed, Build} over a pool of two concrete types, an auxiliary type and an interface, keys {nil,k1}, group g1, six registration forms incl. multi-output ones that collide on their second identity, plus registrations with two As options one of which names an interface the service does not implement (must be rejected whole); after every step Contains / ContainsKeyed / Count / ToSlice vs a reference registry; a final Build must use exactly the registry (resolvability per identity, group sizes, no constructor of a removed singleton runs); every provider built on the way is probed again after the later edits"),
 			h("cont.H_Rebuild", with2(bld(1, 2, 1), "edit", 1), with2(bld(1, 2, 2), "edit", 1), append([]string{"first_build_ok", "first_build_failed"}, buildCov...), 0, "a collection is built while one (symbolic) registration of the world is still missing; that registration is added afterwards: the provider built before never runs its constructor and holds nothing scoped in a non-scoped instance; the second Build judges the full set like a fresh collection and returns the verdict class a fresh collection with the same registrations returns"),
+			h("cont.H_RejectedKeyGroup", map[string]int{"order_schemes": 1}, map[string]int{"order_schemes": 2}, []string{"rejected"}, 9, "a result-object registration rejected on its SECOND identity (taken already) whose first field is tagged with a name, a group, or both, registered without option, with Group or with Name: the rejected Add changes no query answer (Count, ToSlice, Contains, ContainsKeyed), its first identity can still be registered, a later Build finds nothing of it in the group"),
 		}},
 	)
 	properties = append(properties,
